@@ -190,13 +190,12 @@ func VerifKeyMatch(t reflect.Type, text []byte, chunk int) (res string) {
 	if err != nil {
 		return "err compile"
 	}
-	pd, ok := dec.(*ptrDecoder)
-	if !ok {
-		return "err decoder"
+	if pd, ok := dec.(*ptrDecoder); ok {
+		dec = pd.contentDecoder()
 	}
-	sd, ok := pd.contentDecoder().(*structDecoder)
+	sd, ok := dec.(*structDecoder)
 	if !ok {
-		return "err decoder"
+		return fmt.Sprintf("err decoder %T", dec)
 	}
 	path := "map"
 	if sd.keyBitmapUint8 != nil || sd.keyBitmapUint16 != nil {
